@@ -37,6 +37,27 @@ Proof. vm_compute. repeat split. discriminate. Qed.
    poll_data polls a completed future (panic 52).  Replay: `qr ... fault=reset:C@N re=1`. *)
 Lemma C17_refute_stream_lost_after_failed_read :
   exists r, recv_new (qrecv_new 3) = Ok r /\
-    let lost := {| r_id := r_id r; r_stream := None; r_fut := FutDone; r_pending_stop := None |} in
+    let lost := {| r_id := r_id r; r_stream := None; r_fut := FutDone; r_pending_stop := None; r_reset := None |} in
     fst (fst (poll_data [RFin] lost)) = Ready (Panic 52) /\ underlying lost = None.
 Proof. eexists. split; [vm_compute; reflexivity|]. split; vm_compute; reflexivity. Qed.
+
+(* poll_data without the memo of the peer's reset (the code before repair F23): the read after the one that reported
+   the reset goes to Quinn again, whose answer is a clean end of stream - the application takes a truncated message
+   for a complete one.  Replay: `qr ... fault=reset:C@N re=2`. *)
+Lemma C17_refute_reset_forgotten :
+  exists r, recv_new (qrecv_new 3) = Ok r /\
+    let '(x1, r1, o1) := poll_data_with false [RFail (QRReset 267); RFin] r in
+    let '(x2, _, _) := poll_data_with false o1 r1 in
+    x1 = Ready (Err (HStreamTerminated 267)) /\ x2 = Ready (Ok None).
+Proof. eexists. split; [vm_compute; reflexivity|]. vm_compute. split; reflexivity. Qed.
+
+(* poll_ready returning the write error with `?` and leaving the buffer in `writing` (the code before the repair):
+   the send half stays "busy" for ever, so the next send_data of h3 is refused as if h3 had misused the stream
+   (InternalError) instead of failing the way the stream failed.  Replay: `qw ... fault=stop:C@N sa=1`. *)
+Lemma C17_refute_buffer_kept_after_write_error :
+  let s0 := send_new (qsend_new 0) in
+  let '(_, s1) := send_data [[1; 2; 3; 4]] s0 in
+  (* what the old code leaves behind after Quinn's refusal *)
+  let kept := {| s_q := s_q s1; s_writing := s_writing s1 |} in
+  fst (send_data [[9; 9]] kept) = Err (HConnErr HInternalError).
+Proof. vm_compute. reflexivity. Qed.
